@@ -216,3 +216,37 @@ mut("c13-delims-quote-only", "C13", "MUST", "json/scanner.go",
 mut("c13-delims-keep-two-searches", "C13", "KEEP", "json/scanner.go",
     'if j := bytes.IndexAny(buf[i+1:i+advance], "\\"\\\\"); j >= 0 {\n\t\t\t\tadvance = j + 1\n\t\t\t}',
     'rest := buf[i+1 : i+advance]\n\t\t\tif j := bytes.IndexByte(rest, \'"\'); j >= 0 {\n\t\t\t\tadvance = j + 1\n\t\t\t\trest = rest[:j]\n\t\t\t}\n\t\t\tif j := bytes.IndexByte(rest, \'\\\\\'); j >= 0 {\n\t\t\t\tadvance = j + 1\n\t\t\t}', "")
+
+# ---- C04 append.shared / remainder.threaded (positive controls: zero sites on the tree) ---------------
+mut("c04-append-shared-labels", "C04", "MUST", "json/structure.go",
+    "\t\t\tdiags = append(diags, b.unpackBlock(p.Value, typeName, typeRange, labelsLeft[1:], labelsUsed, labelRanges, blocks)...)",
+    "\t\t\tdiags = append(diags, b.unpackBlock(p.Value, typeName, typeRange, labelsLeft[1:], append(labelsUsed[:len(labelsUsed)-1], pk), labelRanges, blocks)...)", "append.shared")
+mut("c04-remainder-not-threaded", "C04", "MUST", "ext/dynblock/unknown_body.go",
+    "remain = unknownBody{template: remain, valueMarks: b.valueMarks}", "remain = unknownBody{template: b.template, valueMarks: b.valueMarks}", "remainder.threaded")
+# ---- C06 marks.accumulate -------------------------------------------------------------------------
+mut("c06-marks-overwritten", "C06", "MUST", "hclsyntax/expression_template.go",
+    "allMarks = append(allMarks, strValMarks)", "allMarks = []cty.ValueMarks{strValMarks}", "marks.accumulate")
+# ---- C07 vars.everyitem ---------------------------------------------------------------------------
+mut("c07-filter-break", "C07", "MUST", "ext/dynblock/expr_wrap.go",
+    "\t\tif rootName == e.i.IteratorName {\n\t\t\tcontinue\n\t\t}", "\t\tif rootName == e.i.IteratorName {\n\t\t\tbreak\n\t\t}", "vars.everyitem")
+# ---- C10 lex.origin -------------------------------------------------------------------------------
+mut("c10-lex-origin", "C10", "MUST", "hclwrite/parser.go",
+    "hclsyntax.LexConfig(src, filename, start)", "hclsyntax.LexConfig(src, filename, hcl.Pos{Line: 1, Column: 1})", "lex.origin")
+# ---- C11 escape.fastpath --------------------------------------------------------------------------
+mut("c11-fastpath-percent", "C11", "MUST", "hclwrite/generate.go",
+    "\tbuf := make([]byte, 0, len(s))\n\tfor i, r := range s {",
+    "\tplain := true\n\tfor i := 0; i < len(s); i++ {\n\t\tif c := s[i]; c < 0x20 || c >= 0x7f || c == '\"' || c == '\\\\' || c == '$' {\n\t\t\tplain = false\n\t\t\tbreak\n\t\t}\n\t}\n\tif plain {\n\t\treturn []byte(s)\n\t}\n\tbuf := make([]byte, 0, len(s))\n\tfor i, r := range s {", "escape.fastpath")
+mut("c11-keep-fastpath-complete", "C11", "KEEP", "hclwrite/generate.go",
+    "\tbuf := make([]byte, 0, len(s))\n\tfor i, r := range s {",
+    "\tplain := true\n\tfor i := 0; i < len(s); i++ {\n\t\tif c := s[i]; c < 0x20 || c >= 0x7f || c == '\"' || c == '\\\\' || c == '$' || c == '%' {\n\t\t\tplain = false\n\t\t\tbreak\n\t\t}\n\t}\n\tif plain {\n\t\treturn []byte(s)\n\t}\n\tbuf := make([]byte, 0, len(s))\n\tfor i, r := range s {", "")
+# ---- C17 call.ctx ---------------------------------------------------------------------------------
+mut("c17-userfunc-shared-ctx", "C17", "MUST", "ext/userfunc/decode.go",
+    "\t\t\tctx = ctx.NewChild()\n\t\t\tctx.Variables = make(map[string]cty.Value)",
+    "\t\t\tif len(params) > 0 || ctx == nil {\n\t\t\t\tctx = ctx.NewChild()\n\t\t\t\tctx.Variables = make(map[string]cty.Value)\n\t\t\t}", "call.ctx")
+# ---- C18 unknown.noerror / unknownbody ------------------------------------------------------------
+mut("c18-foreach-dynamic-rejected", "C18", "MUST", "ext/dynblock/expand_spec.go",
+    "if !unmarkedEachVal.CanIterateElements() && unmarkedEachVal.Type() != cty.DynamicPseudoType {", "if !unmarkedEachVal.CanIterateElements() {", "unknown.noerror")
+# ---- C20 accessor.nil -----------------------------------------------------------------------------
+mut("c20-exprlist-nil-when-empty", "C20", "MUST", "hclsyntax/expression.go",
+    "\tret := make([]hcl.Expression, len(e.Exprs))\n\tfor i, expr := range e.Exprs {\n\t\tret[i] = expr\n\t}\n\treturn ret",
+    "\tvar ret []hcl.Expression\n\tfor _, expr := range e.Exprs {\n\t\tret = append(ret, expr)\n\t}\n\treturn ret", "accessor.nil")
